@@ -24,6 +24,16 @@ func init() {
 	register(&Family{Name: "jobsync", Run: runJobSync, CheckModule: "Cases.JobSyncCheck", CaseOK: "js_ok"})
 }
 
+// jsScripts are corpus cases that run first on every run; the open known findings of the
+// job family are reproduced from them.
+var jsScripts = []string{
+	"F4-pod-cache-lag-task-lost-while-alive",
+	"F4c-finalizer-dropped-while-tasks-exist",
+	"F15-admission-error-leaves-tasks",
+	"F16-foreign-pod-bound-by-name",
+	"F17-stale-job-cache-recreates-attempt",
+}
+
 type jsCfg struct {
 	Pending *int64 `json:"pending"`
 	Force   *int64 `json:"force"`
@@ -80,14 +90,18 @@ func (o jsOp) coq() string {
 }
 
 type jsObs struct {
-	World     string         `json:"-"`
-	Actions   []simAction    `json:"actions"`
-	OK        bool           `json:"ok"`
-	Armed     bool           `json:"armed"`
-	Job       *execution.Job `json:"-"`
-	Pods      []*corev1.Pod  `json:"-"`
-	CachedJob *execution.Job `json:"-"`
-	Now       int64          `json:"now"`
+	World      string         `json:"-"`
+	Actions    []simAction    `json:"actions"`
+	OK         bool           `json:"ok"`
+	Armed      bool           `json:"armed"`
+	Job        *execution.Job `json:"-"`
+	Pods       []*corev1.Pod  `json:"-"`
+	CachedJob  *execution.Job `json:"-"`
+	PodLag     bool           `json:"podLag"` // Pod events were still undelivered to the cache when the pass ran
+	JobLag     bool           `json:"jobLag"`
+	CachedPods []*corev1.Pod  `json:"-"`
+	Trace      string         `json:"trace"` // human-readable summary of the state after the op
+	Now        int64          `json:"now"`
 }
 
 type jsImpl struct {
@@ -311,6 +325,11 @@ func (im *jsImpl) apply(o jsOp, m *mJob) jsObs {
 		before := len(im.q.Log)
 		cj, _ := im.jctx.Informers().Furiko().Execution().V1alpha1().Jobs().Lister().Jobs("ns").Get(jobName)
 		obs.CachedJob = cj
+		for _, o := range im.sc.informers.Pods.sortedList() {
+			obs.CachedPods = append(obs.CachedPods, o.(*corev1.Pod).DeepCopy())
+		}
+		obs.PodLag = len(im.api.podEv) > 0
+		obs.JobLag = len(im.api.jobEv) > 0
 		err := im.recon.SyncOne(context.Background(), "ns", jobName, 0)
 		im.api.EndPass()
 		obs.OK = err == nil
@@ -334,6 +353,26 @@ func (im *jsImpl) apply(o jsOp, m *mJob) jsObs {
 	}
 	obs.Pods = im.api.listPods()
 	obs.Now = im.api.now()
+	tr := fmt.Sprintf("t=%d ", obs.Now-1700000000)
+	if obs.Job != nil {
+		tr += fmt.Sprintf("job[%s kill=%d del=%d fin=%v] refs[", obs.Job.Status.Phase, ozt(obs.Job.Spec.KillTimestamp)%100000, ozt(obs.Job.DeletionTimestamp)%100000, obs.Job.Finalizers != nil)
+		for _, r := range obs.Job.Status.Tasks {
+			d := ""
+			if r.DeletedStatus != nil {
+				d = "/" + string(r.DeletedStatus.Result) + r.DeletedStatus.Reason
+			}
+			tr += fmt.Sprintf("%s:%s%s%s fin=%d ", r.Name, r.Status.State, r.Status.Result, d, ozt(r.FinishTimestamp)%100000)
+		}
+		tr += "] "
+	} else {
+		tr += "job[gone] "
+	}
+	tr += "pods["
+	for _, pd := range obs.Pods {
+		tr += fmt.Sprintf("%s:%s del=%d ", pd.Name, pd.Status.Phase, ozt(pd.DeletionTimestamp)%100000)
+	}
+	tr += "]"
+	obs.Trace = tr
 	return obs
 }
 
@@ -347,7 +386,7 @@ func runJobSync(ctx *RunCtx) *Result {
 		m := g.genJob()
 		// a fresh, admitted, not yet started Job
 		m.Start, m.Kill, m.Deletion, m.AdmErr, m.OldFinish, m.Tasks = nil, nil, nil, false, nil, nil
-		m.Finalizer = !c.Chance(1, 20)
+		m.Finalizer = true // admitted Jobs always carry the delete-dependents finalizer (C16)
 		cfg := jsCfg{}
 		if c.Chance(2, 3) {
 			cfg.Pending = ip(Pick(c, []int64{0, 30, 900}))
@@ -357,6 +396,17 @@ func runJobSync(ctx *RunCtx) *Result {
 		}
 		if c.Chance(2, 3) {
 			cfg.TTL = ip(Pick(c, []int64{0, 60, 3600}))
+		}
+		script := ""
+		if i < len(jsScripts) {
+			script = jsScripts[i]
+			// scripted corpus cases: fixed Job, fixed configuration
+			m = &mJob{Shape: "none", MaxAttempts: 2, Finalizer: true}
+			if script == "F15-admission-error-leaves-tasks" {
+				m = &mJob{Shape: "count", Count: 2, MaxAttempts: 1, Finalizer: true}
+			}
+			m.init()
+			cfg = jsCfg{Pending: ip(900), Force: ip(900), TTL: ip(3600)}
 		}
 		im := newJSImpl(cfg, m, now)
 		var ops []jsOp
@@ -370,12 +420,65 @@ func runJobSync(ctx *RunCtx) *Result {
 			do(jsOp{Kind: "advjob", N: 1000})
 			do(jsOp{Kind: "advpods", N: 1000})
 		}
-		if !c.Chance(1, 10) {
-			do(jsOp{Kind: "start"})
-		}
-		settle()
-		do(jsOp{Kind: "sync"})
 		nops := 20 + c.Intn(50)
+		if script != "" {
+			nops = 0
+			h0 := m.Hashes[0]
+			p0 := taskName(h0, 0)
+			do(jsOp{Kind: "start"})
+			switch script {
+			case "F4-pod-cache-lag-task-lost-while-alive":
+				settle()
+				do(jsOp{Kind: "sync"}) // creates the Pod, records it
+				do(jsOp{Kind: "advjob", N: 1000})
+				do(jsOp{Kind: "sync"}) // Job cache has the ref, Pod cache has not seen the Pod yet
+				do(jsOp{Kind: "kubelet", Name: p0, Step: "schedule"})
+				do(jsOp{Kind: "kubelet", Name: p0, Step: "run"})
+			case "F4c-finalizer-dropped-while-tasks-exist":
+				settle()
+				do(jsOp{Kind: "sync"})
+				do(jsOp{Kind: "kubelet", Name: p0, Step: "schedule"})
+				do(jsOp{Kind: "kubelet", Name: p0, Step: "run"})
+				do(jsOp{Kind: "delete"})
+				do(jsOp{Kind: "advjob", N: 1000})
+				do(jsOp{Kind: "sync"}) // deleting Job, Pod cache still empty
+				do(jsOp{Kind: "advjob", N: 1000})
+				do(jsOp{Kind: "sync"})
+			case "F15-admission-error-leaves-tasks":
+				do(jsOp{Kind: "foreign", Hash: m.Hashes[1], Retry: 0})
+				settle()
+				do(jsOp{Kind: "sync"})
+				do(jsOp{Kind: "kubelet", Name: p0, Step: "schedule"})
+				do(jsOp{Kind: "kubelet", Name: p0, Step: "run"})
+			case "F16-foreign-pod-bound-by-name":
+				settle()
+				do(jsOp{Kind: "sync"})
+				settle()
+				do(jsOp{Kind: "kubelet", Name: p0, Step: "vanish"})
+				settle()
+				do(jsOp{Kind: "sync"})
+				do(jsOp{Kind: "clock", T: now + 10})
+				do(jsOp{Kind: "foreign", Hash: h0, Retry: 0})
+				settle()
+				do(jsOp{Kind: "sync"})
+			case "F17-stale-job-cache-recreates-attempt":
+				settle()
+				do(jsOp{Kind: "sync"}) // creates retry 0 and records it; the Job cache is not advanced
+				do(jsOp{Kind: "advpods", N: 1000})
+				do(jsOp{Kind: "kubelet", Name: p0, Step: "schedule"})
+				do(jsOp{Kind: "kubelet", Name: p0, Step: "run"})
+				do(jsOp{Kind: "kubelet", Name: p0, Step: "fail"})
+				do(jsOp{Kind: "kubelet", Name: p0, Step: "vanish"})
+				do(jsOp{Kind: "advpods", N: 1000})
+				do(jsOp{Kind: "sync"}) // stale Job cache: no tasks recorded => creates retry 0 again
+			}
+		} else {
+			if !c.Chance(1, 10) {
+				do(jsOp{Kind: "start"})
+			}
+			settle()
+			do(jsOp{Kind: "sync"})
+		}
 		lag := c.Chance(1, 3)    // this history lets the caches lag
 		faulty := c.Chance(1, 3) // this history injects faults
 		for k := 0; k < nops; k++ {
@@ -427,8 +530,10 @@ func runJobSync(ctx *RunCtx) *Result {
 				} else {
 					do(jsOp{Kind: "advpods", N: 1 + c.Intn(4)})
 				}
-			case r < 84: // user kills the Job
-				do(jsOp{Kind: "kill", T: im.api.now() + Pick(c, []int64{-5, 0, 0, 1, 30, 600})})
+			case r < 84: // user kills the Job (the validating webhook refuses a change once the old value has passed)
+				if rj := im.api.getJob(jobName); rj != nil && (rj.Spec.KillTimestamp == nil || rj.Spec.KillTimestamp.Unix() > im.api.now()) {
+					do(jsOp{Kind: "kill", T: im.api.now() + Pick(c, []int64{-5, 0, 0, 1, 30, 600})})
+				}
 			case r < 87:
 				do(jsOp{Kind: "delete"})
 			case r < 89:
@@ -470,7 +575,7 @@ func runJobSync(ctx *RunCtx) *Result {
 		}
 		effCfg := jsCfg{Pending: eff.DefaultPendingTimeoutSeconds, Force: eff.ForceDeleteTaskTimeoutSeconds, TTL: eff.DefaultTTLSecondsAfterFinished}
 		term := CApp("mkJS", effCfg.coq(), m.coq(), CZ(now), CList(opTerms), CList(obTerms))
-		js := map[string]interface{}{"cfg": effCfg, "job": m, "now": now, "ops": ops}
+		js := map[string]interface{}{"cfg": effCfg, "job": m, "now": now, "ops": ops, "obs": obs}
 		res.Distribution["shape-"+m.Shape]++
 		res.Distribution["actions"] += nact
 		res.Add(term, js, fmt.Sprintf("%d|%d|%d", ctx.Seed, i, nact), nact > 2)
